@@ -12,9 +12,21 @@ Renames == Cardinality({s \in S : name[s] # cfg.name[s]})
 MCSetName == \E s \in S, k \in {0, 2} : Renames = 0 /\ ~Multi(s) /\ SetName(s, k)
 MCNext == DAdd \/ DDisown \/ DPriv \/ DStart \/ DStop \/ DFire \/ MCSetName \/ DGet
 Spec == Init /\ [][MCNext]_vars
-WildSpec == Init /\ [][NextAll]_vars
+\* the undisciplined environment: any service may be started/stopped at any time, running services attached
+WildNext == \/ \E c, p \in S : Add(c, p)
+            \/ \E c \in S : Disown(c)
+            \/ \E s \in S : Priv(s) \/ Start(s) \/ Stop(s)
+            \/ DFire \/ MCSetName \/ \E p \in S : Get(p, 2)
+WildSpec == Init /\ [][WildNext]_vars
+WildBound == ntok <= 3 /\ nw <= 2 /\ Renames <= 1 /\ TLCGet("level") <= 4
+WildDeepBound == ntok <= 3 /\ nw <= 2 /\ Renames <= 1 /\ TLCGet("level") <= 5
+DeepBound == ntok <= 4 /\ nw <= 3 /\ Renames <= 1 /\ TLCGet("level") <= 7
 Bound == ntok <= 3 /\ nw <= 2 /\ Renames <= 1 /\ TLCGet("level") <= 6
 View == <<cfg, name, par, kids, named, run, ntok, tokw, tokdone, nw, worig, wn, wdone, dang, corrupt, dstart, dstop, wild>>
+\* reachability witnesses: TLC must report these VIOLATED (the ODDITY branches and late-firing watchers are reached)
+NeverCorrupt == corrupt = {} \/ dang = {}
+NeverLateFire == \A w \in wdone : worig[w] = {}
 \* properties of the last call are checked on EVERY transition (the VIEW hides `last`)
 StepInv == [][CallOrder' /\ AddStarts' /\ RemoveStops']_vars
+WildStepInv == [][CallOrder' /\ AddStarts' /\ RemoveStops']_vars
 =============================================================================
